@@ -1,5 +1,6 @@
 import Py4hwV.Proofs.C17Frame
 import Py4hwV.Proofs.C17Rx
+import Py4hwV.Proofs.C17Link
 /-
   C17 — The UART link delivers every byte once, unchanged and in order.
 
@@ -351,13 +352,14 @@ example : Link.delivered 2 Link.init exIns = [0xA5, 0, 0xFF] := by decide +kerne
 
 
 /-! ## delivery clause
-  Full statement (NOT a theorem of the code as it is — see the counterexample below and notes/C17.md):
+  The unconditional statement
 
-    theorem link_delivers (n) (hn : 2 ≤ n) (ins : List LIn) (drained : serializer ready, hand-off FSM idle at the end) :
-        Link.delivered n Link.init ins = (Link.accepted n Link.init ins).map (· % 256)
+    Link.delivered n Link.init ins = (Link.accepted n Link.init ins).map (· % 256)     (after the drain, ALL consumer timings)
 
-  It fails for consumers whose `ready` is high in fewer than two cycles between consecutive frame ends: the deserializer
-  overwrites `v` and restarts its hand-off FSM (serdes.py:98-102), so bytes are lost AND duplicated. -/
+  is NOT a theorem of the code as it is: it fails for consumers whose `ready` is high in fewer than two cycles between
+  consecutive frame ends — the deserializer overwrites `v` and restarts its hand-off FSM (serdes.py:98-102), so bytes are lost
+  AND duplicated (counterexample below = known finding C17-slow-consumer).  Under the hypothesis `keepsUp` it IS proved, for
+  every n ≥ 2: `link_delivers` / `link_delivers_drained` at the end of this file. -/
 
 /-- the probing witness, replayed on the model (inputs recorded from the real run: producer holds valid with bytes 1..6
     back-to-back, consumer ready every 30th cycle, then a drain with ready = 1), n = 2 -/
@@ -378,13 +380,6 @@ theorem slow_consumer_counterexample :
 
 
 /-! ### what IS proved about delivery: the hand-off FSM, for all consumers that keep up (all n, all inputs) -/
-theorem feOfDes_eq (d : DesN) (sample : Nat) : feOfDes d.toDes sample = feOf d sample := by
-  obtain ⟨st, cnt, stv, temp, desync, v, valid⟩ := d
-  have i2 : ((st:Int) = 2) = (st = 2) := by simp; omega
-  have i8 : ((cnt:Int) = 8) = (cnt = 8) := by simp; omega
-  have hm : ((temp:Int) % 256).toNat = temp % 256 := by omega
-  simp only [feOfDes, feOf, DesN.toDes, i2, i8, hm]
-
 theorem delivered_eq_hs (n : Nat) (ins : List LIn) : ∀ (s : Link) (d : DesN), s.rx.des = d.toDes →
     Link.delivered n s ins = hsDelivered d.hs (rxEvents n s ins) := by
   induction ins with
@@ -402,14 +397,10 @@ theorem delivered_eq_hs (n : Nat) (ins : List LIn) : ∀ (s : Link) (d : DesN), 
     · next h => exact (if_pos h).symm
     · next h => exact (if_neg h).symm
 
-/-- `rx_frame` / `link_delivers`, PARTIAL (hand-off half): in the closed loop, for every divider ratio, every producer and
-    every consumer timing that keeps up (`keepsUp`: ready high in ≥ 2 cycles from each frame end to the next), the bytes
-    handed over on the deserializer's ready/valid port are exactly the bytes latched by the receive FSM at its frame ends —
-    each once, unchanged, in order.
-    Missing for the full `link_delivers`: the sampling invariant `rx_sampling`
-        (rxEvents n Link.init ins).filterMap (·.1) = (Link.accepted n Link.init ins).map (· % 256)   (after the drain)
-    i.e. that the recovered clock samples each frame bit once, mid-bit (validated against the real code for n = 2..40, not
-    proved parametric in n). -/
+/-- hand-off half of `link_delivers`: in the closed loop, for every divider ratio, every producer and every consumer timing
+    that keeps up (`keepsUp`: ready high in ≥ 2 cycles from each frame end to the next), the bytes handed over on the
+    deserializer's ready/valid port are exactly the bytes latched by the receive FSM at its frame ends — each once, unchanged,
+    in order.  (The other half is `rx_sampling` below.) -/
 theorem rx_handoff_partial (n : Nat) (ins : List LIn) (hk : keepsUp 2 (rxEvents n Link.init ins) = true) :
     Link.delivered n Link.init ins = (rxEvents n Link.init ins).filterMap (·.1) := by
   have h := delivered_eq_hs n ins Link.init ⟨0, 0, 0, 0, 0, 0, 0⟩ rfl
@@ -422,5 +413,129 @@ example : (rxEvents 2 Link.init exIns).filterMap (·.1) = [0xA5, 0, 0xFF] := by 
 /-- the slow consumer of the counterexample is exactly outside the hypothesis -/
 example : keepsUp 2 (rxEvents 2 Link.init slowIns) = false := by decide +kernel
 example : (rxEvents 2 Link.init slowIns).filterMap (·.1) = [1, 2, 3, 4, 5, 6] := by decide +kernel
+
+
+/-! ## serializer liveness: `ready` returns within 22n+1 = 11·P + 1 cycles, whatever the producer does -/
+theorem ser_live (n : Nat) (hn : 2 ≤ n) (pre rest : List (Nat × Nat)) (hl : 22 * n + 1 ≤ rest.length) :
+    ∃ k, k ≤ 22 * n + 1 ∧ (TxSide.run n TxSide.init (pre ++ rest.take k)).ser.ready = 1 := by
+  obtain ⟨s, m, e, hinv, hrun, _⟩ := reach n hn pre
+  have hr := rank_le n m e hinv.wf hinv.lt (by omega)
+  obtain ⟨j, hj⟩ := live_pos n (by omega) (rank n m e) m e rest hinv.wf hinv.lt rfl (by omega)
+  refine ⟨rank n m e, hr, ?_⟩
+  have hp := pos_inv n hn (rest.take (rank n m e)) s m e hinv
+  rw [run_append, hrun, hp.2]
+  show (TxN.run n s (rest.take (rank n m e))).ser.ready = 1
+  rw [hp.1.ser, hj]; rfl
+
+theorem accepted_append (n : Nat) (a b : List (Nat × Nat)) : ∀ s,
+    TxSide.accepted n s (a ++ b) = TxSide.accepted n s a ++ TxSide.accepted n (TxSide.run n s a) b := by
+  induction a with
+  | nil => intro s; rfl
+  | cons i is ih =>
+    intro s; obtain ⟨x, y⟩ := i
+    simp only [List.cons_append, TxSide.accepted, TxSide.run, ih, optCons_eq, List.append_assoc]
+
+theorem accepted_idle (n : Nat) (dr : List (Nat × Nat)) (hd : ∀ x ∈ dr, x.1 = 0) : ∀ s, TxSide.accepted n s dr = [] := by
+  induction dr with
+  | nil => intro s; rfl
+  | cons i is ih =>
+    intro s; obtain ⟨x, y⟩ := i
+    have : x = 0 := hd (x, y) (by simp)
+    subst this
+    simp only [TxSide.accepted, TxSide.accept]
+    rw [ih (fun z hz => hd z (by simp [hz]))]
+    simp [optCons]
+
+/-- after a drain of 22n+1 producer-idle cycles the serializer is ready -/
+theorem ready_after_drain (n : Nat) (hn : 2 ≤ n) (ins dr : List (Nat × Nat)) (hd : ∀ x ∈ dr, x.1 = 0)
+    (hl : 22 * n + 1 ≤ dr.length) : (TxSide.run n TxSide.init (ins ++ dr)).ser.ready = 1 := by
+  obtain ⟨s, m, e, hinv, hrun, _⟩ := reach n hn ins
+  have hr := rank_le n m e hinv.wf hinv.lt (by omega)
+  obtain ⟨j, hj⟩ := live_pos n (by omega) (rank n m e) m e dr hinv.wf hinv.lt rfl (by omega)
+  have hsplit : dr = dr.take (rank n m e) ++ dr.drop (rank n m e) := (List.take_append_drop _ _).symm
+  have hpos : (posRun n m e dr).1 = .ready j := by
+    rw [hsplit, posRun_append]
+    generalize (posRun n m e (dr.take (rank n m e))).2 = e2
+    rw [hj]
+    exact posRun_idle n _ (fun x hx => hd x (List.mem_of_mem_drop hx)) j e2
+  have hp := pos_inv n hn dr s m e hinv
+  rw [run_append, hrun, hp.2]
+  show (TxN.run n s dr).ser.ready = 1
+  rw [hp.1.ser, hpos]; rfl
+
+/-- C17, line clause without the "ready again" hypothesis: for EVERY input stream followed by a drain of at least
+    11·P + 1 producer-idle cycles, the software 8N1 receiver recovers exactly the accepted bytes -/
+theorem line_8n1_drained (n : Nat) (hn : 2 ≤ n) (ins dr : List (Nat × Nat)) (hd : ∀ x ∈ dr, x.1 = 0)
+    (hl : 22 * n + 1 ≤ dr.length) :
+    softRx (2 * n) (TxSide.trace n TxSide.init (ins ++ dr)) = (TxSide.accepted n TxSide.init ins).map (· % 256) := by
+  rw [line_8n1_tx n hn (ins ++ dr) (ready_after_drain n hn ins dr hd hl), accepted_append,
+    accepted_idle n dr hd, List.append_nil]
+
+/-! ## delivery clause, closed loop -/
+/-- safety: the bytes latched by the receive FSM are the accepted bytes, at most one behind (every n ≥ 2, every stream) -/
+theorem rx_sampling_inv (n : Nat) (hn : 2 ≤ n) (ins : List LIn) :
+    ∃ p, p.length ≤ 1 ∧
+      (Link.accepted n Link.init ins).map (· % 256) = (rxEvents n Link.init ins).filterMap (·.1) ++ p := by
+  obtain ⟨m', e', ph', _, hl⟩ := link_run_inv n hn ins Link.init _ _ _ (link_inv_init n (by omega))
+  refine ⟨pendRx m' ph', ?_, by simpa [pendRx] using hl⟩
+  unfold pendRx
+  cases ph' with
+  | busy b k er => simp
+  | idle z => cases m' <;> simp <;> split <;> simp
+  | ended => cases m' <;> simp <;> split <;> simp
+
+/-- `rx_sampling`: the recovered clock samples every frame bit once, mid-bit — once the serializer is ready again, the bytes
+    latched by the receive FSM at its frame ends are exactly the accepted bytes (every n ≥ 2, every input stream, every
+    consumer) -/
+theorem rx_sampling (n : Nat) (hn : 2 ≤ n) (ins : List LIn) (hr : (Link.run n Link.init ins).tx.ser.ready = 1) :
+    (rxEvents n Link.init ins).filterMap (·.1) = (Link.accepted n Link.init ins).map (· % 256) := by
+  obtain ⟨m', e', ph', hinv, hl⟩ := link_run_inv n hn ins Link.init _ _ _ (link_inv_init n (by omega))
+  obtain ⟨t, r, ht, _, hti, _, hj⟩ := hinv
+  have hrd : t.ser.ready = 1 := by rw [ht] at hr; exact hr
+  have hm := ready_iff n m' e'
+  rw [← hti.ser] at hm
+  obtain ⟨j, hjm⟩ := hm.mp hrd
+  subst hjm
+  have hp : pendRx (.ready j) ph' = [] := by
+    simp only [J] at hj
+    rcases hj with ⟨z, _, h⟩ | ⟨_, _, h⟩ <;> subst h <;> rfl
+  rw [hp] at hl
+  simpa [pendRx] using hl.symm
+
+/-- **C17, delivery clause** (`link_delivers`): closed loop, every divider ratio n ≥ 2 (≥ 4 clocks per bit), every producer
+    behaviour (all byte values, all gaps including none), every consumer timing that keeps up — once the serializer is ready
+    again, every accepted byte has been presented on the deserializer's ready/valid port exactly once, unchanged (low 8 bits),
+    in order. -/
+theorem link_delivers (n : Nat) (hn : 2 ≤ n) (ins : List LIn)
+    (hk : keepsUp 2 (rxEvents n Link.init ins) = true) (hr : (Link.run n Link.init ins).tx.ser.ready = 1) :
+    Link.delivered n Link.init ins = (Link.accepted n Link.init ins).map (· % 256) := by
+  rw [rx_handoff_partial n ins hk, rx_sampling n hn ins hr]
+
+theorem txIns_append (a b : List LIn) : txIns (a ++ b) = txIns a ++ txIns b := by simp [txIns]
+
+/-- the same with an explicit drain instead of "ready again": after at least 11·P + 1 producer-idle cycles (any consumer
+    behaviour that keeps up over the whole run) delivered = accepted and the software receiver agrees -/
+theorem link_delivers_drained (n : Nat) (hn : 2 ≤ n) (ins dr : List LIn) (hd : ∀ x ∈ dr, x.valid = 0)
+    (hl : 22 * n + 1 ≤ dr.length) (hk : keepsUp 2 (rxEvents n Link.init (ins ++ dr)) = true) :
+    Link.delivered n Link.init (ins ++ dr) = (Link.accepted n Link.init ins).map (· % 256) ∧
+    softRx (2 * n) (Link.trace n Link.init (ins ++ dr)) = (Link.accepted n Link.init ins).map (· % 256) := by
+  obtain ⟨a, b, c⟩ := link_tx n (ins ++ dr) Link.init
+  obtain ⟨_, _, c'⟩ := link_tx n ins Link.init
+  have hd' : ∀ x ∈ txIns dr, x.1 = 0 := by
+    intro x hx
+    simp only [txIns, List.mem_map] at hx
+    obtain ⟨y, hy, rfl⟩ := hx
+    exact hd y hy
+  have hlen : 22 * n + 1 ≤ (txIns dr).length := by simp [txIns]; exact hl
+  have hrd : (Link.run n Link.init (ins ++ dr)).tx.ser.ready = 1 := by
+    rw [a, txIns_append]; exact ready_after_drain n hn _ _ hd' hlen
+  have hacc : Link.accepted n Link.init (ins ++ dr) = Link.accepted n Link.init ins := by
+    rw [c, c', txIns_append, accepted_append, accepted_idle n _ hd', List.append_nil]
+  refine ⟨?_, ?_⟩
+  · rw [link_delivers n hn _ hk hrd, hacc]
+  · rw [line_8n1 n hn _ hrd, hacc]
+
+/-- non-vacuity of `link_delivers` -/
+example : keepsUp 2 (rxEvents 2 Link.init exIns) = true ∧ (Link.run 2 Link.init exIns).tx.ser.ready = 1 := by decide +kernel
 
 end C17
